@@ -14,6 +14,7 @@
   missing tracks, self- and mutual recursion are all inside the quantifier.
 -/
 import Ctrmml.Proofs.Validator
+import Ctrmml.Model.PlayerCh
 namespace Ctrmml.C04
 open Ctrmml Player Tree Expand Refine
 
@@ -111,6 +112,86 @@ theorem C04_validator_terminates (song : Song) (root : List Event)
     rw [hf fuel hge] at hbad
     injection hbad with hbad
     exact hne hbad
+
+
+/-! ### the end of a track, and drum mode (class `Player`) -/
+
+/-- **End of track.** At an `END` with an empty stack the player resumes at the loop point exactly
+when there is one, time has passed since it was set (`play_time ≠ loop_play_time`, both taken
+after the pending on/off time has been added), and the loop hook agrees; in that case the loop
+count goes up by one and nothing is emitted; otherwise the player is disabled and the end hook
+runs. -/
+theorem C04_end_loops_iff_time_passed (lh : Bool) (a : Acc) (pos : Nat) (c' : Core) (f : Event) :
+    let t : Nat := a.playTime + a.onTime + a.offTime
+    let back : Prop := a.loopPosition ≠ -1 ∧ (t : Int) ≠ a.loopPlayTime ∧ lh = true
+    (back → (accStep lh a pos c' (.rootEnd f)).2.1.position = a.loopPosition.toNat ∧
+            (accStep lh a pos c' (.rootEnd f)).2.2 = .nothing ∧
+            (accStep lh a pos c' (.rootEnd f)).1.enabled = a.enabled ∧
+            (accStep lh a pos c' (.rootEnd f)).1.loopCount = a.loopCount + 1) ∧
+    (¬ back → (accStep lh a pos c' (.rootEnd f)).2.2 = .finish ∧
+              (accStep lh a pos c' (.rootEnd f)).1.enabled = false ∧
+              (accStep lh a pos c' (.rootEnd f)).2.1 = c') := by
+  intro t back
+  constructor
+  · intro hb
+    have hb' : a.loopPosition ≠ -1 ∧ ((a.playTime + a.onTime + a.offTime : Nat) : Int) ≠ a.loopPlayTime ∧ lh = true := hb
+    simp only [accStep, Out.fetched]
+    rw [if_pos (by simpa using hb')]
+    exact ⟨rfl, rfl, rfl, rfl⟩
+  · intro hb
+    have hb' : ¬ (a.loopPosition ≠ -1 ∧ ((a.playTime + a.onTime + a.offTime : Nat) : Int) ≠ a.loopPlayTime ∧ lh = true) := hb
+    simp only [accStep, Out.fetched]
+    rw [if_neg (by simpa using hb')]
+    exact ⟨rfl, rfl, rfl⟩
+
+open PlayerCh in
+/-- **Drum mode, entering.** A note in drum mode whose routine exists, with room on the stack and
+no drum frame on top, pushes a drum frame remembering the caller's track, position and on/off
+time, continues at the start of the routine with zero duration, and is shown as a `NOP`. -/
+theorem C04_drum_enter (song : Song) (s : PS) (e : Event) (evs : List Event)
+    (htop : ∀ f r, s.core.stack = f :: r → f.type ≠ .drum)
+    (htr : song.track? (trackIdOfParam e.param) = some evs) (hroom : s.core.stack.length < maxStack) :
+    handleDrumMode song s e =
+      ({ s with core := { track := .id (trackIdOfParam e.param), position := 0,
+                          stack := { type := .drum, track := s.core.track, position := s.core.position,
+                                     endPosition := s.acc.onTime, loopCount := s.acc.offTime } :: s.core.stack },
+                acc := { s.acc with onTime := 0, offTime := 0 } }, { e with type := Tables.ev_NOP }) := by
+  have hpush : ¬ (s.core.stack.length ≥ maxStack) := by omega
+  have henter : handleDrumMode.enter song s e =
+      ({ s with core := { track := .id (trackIdOfParam e.param), position := 0,
+                          stack := { type := .drum, track := s.core.track, position := s.core.position,
+                                     endPosition := s.acc.onTime, loopCount := s.acc.offTime } :: s.core.stack },
+                acc := { s.acc with onTime := 0, offTime := 0 } }, { e with type := Tables.ev_NOP }) := by
+    simp only [handleDrumMode.enter, htr, push]
+    rw [if_neg hpush]
+  unfold handleDrumMode
+  split
+  · rename_i f rest hst
+    have hnd := htop f rest hst
+    rw [if_neg hnd]
+    exact henter
+  · exact henter
+
+open PlayerCh in
+/-- **Drum mode, leaving.** The routine's first note (a drum frame is on top) sounds with the
+caller's on/off time; the player returns to the caller's track and position and the frame is
+popped. -/
+theorem C04_drum_exit (song : Song) (s : PS) (e : Event) (f : Frame) (r : List Frame)
+    (hs : s.core.stack = f :: r) (hf : f.type = .drum) :
+    handleDrumMode song s e =
+      ({ s with core := { track := f.track, position := f.position, stack := r },
+                acc := { s.acc with onTime := f.endPosition, offTime := f.loopCount.toNat } }, e) := by
+  unfold handleDrumMode
+  simp [hs, hf]
+
+/-- **Drum routine without a note.** Reaching the end of a routine while its drum frame is still
+on top is the input error "drum routine contains no note". -/
+theorem C04_drum_no_note_rejected (song : Song) (root : List Event) (tr : TRef) (pos : Nat) (f : Frame) (r : List Frame)
+    (hend : (codeOf song root tr)[pos]? = none) (hf : f.type = .drum) :
+    coreStep song root ⟨tr, pos, f :: r⟩ = .error .drumNoNote := by
+  unfold coreStep
+  have hk : endEvent.kind = .fin := by decide
+  simp [fetch, hend, hk, stackTop, hf, underflowErr]
 
 /-! Non-vacuity: concrete songs inside the domain, one accepted with a non-trivial expansion
 (loop with break, nested call), one rejected. -/
